@@ -323,7 +323,11 @@ def _records_report(ctx: Ctx) -> Report:
         # the records exist BEFORE any batch does; placing them in batches (construction, replace, a second batch sharing
         # them) must leave each of them exactly as it was
         recs = c17.build_records(case)
-        before = [(_snapshot(r), hash(r), copy.deepcopy(r)) for r in recs]
+        try:
+            before = [(_snapshot(r), hash(r), copy.deepcopy(r)) for r in recs]
+        except TypeError as e:
+            rep.add_failure(Failure("unhashable", f"hash() of a record raised {e!r}", {"records_case": c17.case_to_json(case), "selector": selector}, 1))
+            return
         nb = c17.build(case, recs)
         dataclasses.replace(nb, records=recs[::-1])
         c17.build({**case, "producer_id": 7}, recs)
